@@ -44,11 +44,21 @@ type Case struct {
 	KeepOrphans bool   `json:"keep_orphans"`
 	Lazy        bool   `json:"lazy"`
 	Version     bool   `json:"version"`
+	// Edits are applied to the tree between the first and the second run (an edited template gets
+	// a modification time later than anything the first run wrote).
+	Edits []Edit `json:"edits,omitempty"`
+}
+
+// Edit replaces the content of a .templ file of the tree, or removes it.
+type Edit struct {
+	Path    string `json:"path"`
+	Content string `json:"content"`
+	Delete  bool   `json:"delete,omitempty"`
 }
 
 var rec = ev.New("C15", "c15.tree",
-	"generated directory trees (depth <=4, <=40 files; directory names normal / vendor / node_modules / .x / _x / look-alikes vendor2, x_, a.b; files: distinct valid .templ, unparsable .templ, .templ whose Go does not gofmt, stale / up-to-date / newer _templ.go, orphaned _templ.go, other .go and other files; explicit mtimes) "+
-		"x flags keep-orphaned / lazy / include-version x worker count 1..32 x GOMAXPROCS; generatecmd.Run in-process under -race, twice. Oracle: an expected tree computed independently per file (single-file parse+generate+gofmt with the file's relative name; own skip rule; orphan and lazy rules); every path and byte compared; error returned iff some reachable .templ is ungenerable; second run changes no content. "+
+	"generated directory trees (depth <=4, <=40 files; directory names normal / vendor / node_modules / .x / _x / look-alikes vendor2, x_, a.b; files: distinct valid .templ, unparsable .templ, .templ whose Go does not gofmt, stale (short, long, or the output of another template) / newer _templ.go, orphaned _templ.go, other .go and other files; explicit mtimes) "+
+		"x flags keep-orphaned / lazy / include-version x worker count 1..32 x GOMAXPROCS; generatecmd.Run in-process under -race, twice; in two thirds of the cases 1-4 templates are edited between the runs (replaced by another valid template with shorter or longer output, emptied, broken, or removed) and the second run is compared with the expectation for the edited tree. Oracle: an expected tree computed independently per file (single-file parse+generate+gofmt with the file's relative name; own skip rule; orphan and lazy rules); every path and byte compared; error returned iff some reachable .templ is ungenerable; without edits the second run changes no content. "+
 		"Non-trivial = tree has a skipped directory containing a .templ, an orphan, and >=2 generable files; distinct by (tree, flags, workers)")
 
 var discard = slog.New(slog.NewTextHandler(io.Discard, nil))
@@ -109,6 +119,13 @@ func readTree(root string) (map[string]string, error) {
 
 // expected computes the tree `templ generate` must leave behind, and whether it must fail.
 func (c Case) expected() (tree map[string]string, mustFail bool, generable int) {
+	tree, mustFail, generable, _ = c.expectedWritten()
+	return
+}
+
+// expectedWritten additionally reports which generated files the run writes.
+func (c Case) expectedWritten() (tree map[string]string, mustFail bool, generable int, written map[string]bool) {
+	written = map[string]bool{}
 	tree = map[string]string{}
 	age := map[string]int{}
 	for _, f := range c.Files {
@@ -136,13 +153,72 @@ func (c Case) expected() (tree map[string]string, mustFail bool, generable int) 
 				continue // the Go file is newer than the template: lazy leaves it alone
 			}
 			tree[target] = g.Go
+			written[target] = true
 		case strings.HasSuffix(f.Path, "_templ.go"):
 			if _, ok := tree[strings.TrimSuffix(f.Path, "_templ.go")+".templ"]; !ok && !c.KeepOrphans {
 				delete(tree, f.Path)
 			}
 		}
 	}
-	return tree, mustFail, generable
+	return tree, mustFail, generable, written
+}
+
+const (
+	ageWrittenByRun1 = -1_000_000_000 // newer than every generated mtime
+	ageEdited        = -2_000_000_000 // newer still
+)
+
+// afterEdits is the case the second run faces: the tree the first run must leave behind, with
+// the edits applied.
+func (c Case) afterEdits() Case {
+	tree, _, _, written := c.expectedWritten()
+	age := map[string]int{}
+	for _, f := range c.Files {
+		age[f.Path] = f.Age
+	}
+	for p := range written {
+		age[p] = ageWrittenByRun1
+	}
+	for _, e := range c.Edits {
+		if e.Delete {
+			delete(tree, e.Path)
+			continue
+		}
+		tree[e.Path] = e.Content
+		age[e.Path] = ageEdited
+	}
+	c2 := c
+	c2.Edits = nil
+	c2.Files = nil
+	var paths []string
+	for p := range tree {
+		paths = append(paths, p)
+	}
+	sort.Strings(paths)
+	for _, p := range paths {
+		c2.Files = append(c2.Files, File{Path: p, Content: tree[p], Age: age[p]})
+	}
+	return c2
+}
+
+func (c Case) applyEdits(root string) error {
+	future := time.Now().Add(time.Hour)
+	for _, e := range c.Edits {
+		p := filepath.Join(root, filepath.FromSlash(e.Path))
+		if e.Delete {
+			if err := os.Remove(p); err != nil {
+				return err
+			}
+			continue
+		}
+		if err := os.WriteFile(p, []byte(e.Content), 0o644); err != nil {
+			return err
+		}
+		if err := os.Chtimes(p, future, future); err != nil {
+			return err
+		}
+	}
+	return nil
 }
 
 func diffTrees(want, got map[string]string) error {
@@ -197,6 +273,12 @@ func decide(c Case) (err error) {
 	want, mustFail, _ := c.expected()
 	args := generatecmd.Arguments{Path: root, WorkerCount: c.Workers, KeepOrphanedFiles: c.KeepOrphans, Lazy: c.Lazy, IncludeVersion: c.Version}
 	for run := 1; run <= 2; run++ {
+		if run == 2 && len(c.Edits) > 0 {
+			if err := c.applyEdits(root); err != nil {
+				panic("harness: " + err.Error())
+			}
+			want, mustFail, _ = c.afterEdits().expected()
+		}
 		var runErr error
 		done := make(chan struct{})
 		go func() {
@@ -322,7 +404,13 @@ var genCase = rapid.Custom(func(t *rapid.T) Case {
 		switch kind := rapid.IntRange(0, 11).Draw(t, "kind"); {
 		case kind <= 4: // valid templ, maybe with an existing generated file
 			add(File{Path: p(stem + ".templ"), Content: validTempl("p", i, rapid.IntRange(0, 4).Draw(t, "variant")), Age: age})
-			switch rapid.IntRange(0, 3).Draw(t, "existing") {
+			switch rapid.IntRange(0, 5).Draw(t, "existing") {
+			case 4: // a stale generated file that is much longer than what will be generated
+				add(File{Path: p(stem + "_templ.go"), Content: "package p\n\n// stale and long\n" + strings.Repeat("// left over from a bigger version of the template\n", 40+rapid.IntRange(0, 200).Draw(t, "pad")), Age: age + 1 + rapid.IntRange(0, 50).Draw(t, "older")})
+			case 5: // the generated file of another, valid template (possibly longer or shorter)
+				if g, _, err := tc.Generate(validTempl("p", i+100, rapid.IntRange(0, 4).Draw(t, "oldVariant")), stem+".templ"); err == nil {
+					add(File{Path: p(stem + "_templ.go"), Content: g.Go, Age: age + 1 + rapid.IntRange(0, 50).Draw(t, "older")})
+				}
 			case 1:
 				add(File{Path: p(stem + "_templ.go"), Content: "package p\n\n// stale\n", Age: age + 1 + rapid.IntRange(0, 50).Draw(t, "older")})
 			case 2:
@@ -343,6 +431,34 @@ var genCase = rapid.Custom(func(t *rapid.T) Case {
 			add(File{Path: p(stem + "_templ.txt"), Content: "left over dev mode text", Age: age})
 		default:
 			add(File{Path: p("README.md"), Content: "# readme", Age: age})
+		}
+	}
+	// edits between the two runs: templates are replaced by another valid template (shorter or
+	// longer output), by a broken one, or removed.
+	if rapid.IntRange(0, 2).Draw(t, "withEdits") > 0 {
+		var templs []string
+		for _, f := range c.Files {
+			if strings.HasSuffix(f.Path, ".templ") {
+				templs = append(templs, f.Path)
+			}
+		}
+		edited := map[string]bool{}
+		for i, n := 0, rapid.IntRange(1, 4).Draw(t, "nedits"); i < n && len(templs) > 0; i++ {
+			path := rapid.SampledFrom(templs).Draw(t, "editPath")
+			if edited[path] {
+				continue
+			}
+			edited[path] = true
+			switch k := rapid.IntRange(0, 9).Draw(t, "editKind"); {
+			case k <= 5:
+				c.Edits = append(c.Edits, Edit{Path: path, Content: validTempl("p", 200+i, rapid.IntRange(0, 4).Draw(t, "editVariant"))})
+			case k == 6:
+				c.Edits = append(c.Edits, Edit{Path: path, Content: "package p\n\ntempl Tiny() {\n}\n"})
+			case k == 7:
+				c.Edits = append(c.Edits, Edit{Path: path, Content: rapid.SampledFrom(badTempl).Draw(t, "editBad")})
+			default:
+				c.Edits = append(c.Edits, Edit{Path: path, Delete: true})
+			}
 		}
 	}
 	return c
@@ -372,6 +488,9 @@ func TestPropTree(t *testing.T) {
 		c := genCase.Draw(t, "case")
 		rec.Eval(1)
 		rec.Class(fmt.Sprintf("workers=%d", c.Workers))
+		if len(c.Edits) > 0 {
+			rec.Class("edits between runs")
+		}
 		if c.Lazy {
 			rec.Class("lazy")
 		}
